@@ -1,2 +1,2 @@
-import NipyVerif.Model.C19
-def main : IO Unit := NipyVerif.driverLoop NipyVerif.C19.run
+import NipyVerif.Model.C19C
+def main : IO Unit := NipyVerif.driverLoop NipyVerif.C19.runC
